@@ -43,9 +43,19 @@ var genesisHashTestnet = func() (h [32]byte) {
 	return
 }()
 
+// testnet4-like: NewChainExt itself then sets every activation height to 1, so the
+// library's own recovery tail (DoNotRescan=false) can run with the right script flags.
+var genesisHashTestnet4 = func() (h [32]byte) {
+	copy(h[:], []byte("verif-sim-genesis-block-hash-001"))
+	h[0] = 0x43
+	h[1] = 0xf0
+	return
+}()
+
 type Cfg struct {
 	P              ledger.Params   `json:"params"`
 	Testnet        bool            `json:"testnet"`
+	Testnet4       bool            `json:"testnet4"` // test-net-4-like genesis: all rules active from height 1 inside NewChainExt
 	Blocks         []*ledger.Block `json:"blocks"`
 	Now0           int64           `json:"now0"`
 	CompressUTXO   bool            `json:"compress_utxo"`
@@ -59,6 +69,7 @@ type Cfg struct {
 	TimerP         float64         `json:"timer_p"`
 	MaxConsec      int             `json:"max_consec"`
 	SchedSeed      uint64          `json:"sched_seed"`
+	CrashPoints    int             `json:"crash_points"` // C07: 0 = default subset, -1 = every effect
 }
 
 type Op struct {
@@ -75,15 +86,28 @@ type H struct{}
 func (H) Name() string { return "chainsim" }
 
 func (c *Cfg) genesis() [32]byte {
+	if c.Testnet4 {
+		return genesisHashTestnet4
+	}
 	if c.Testnet {
 		return genesisHashTestnet
 	}
 	return genesisHash
 }
 
+func (c *Cfg) net() int {
+	if c.Testnet4 {
+		return 2
+	}
+	if c.Testnet {
+		return 1
+	}
+	return 0
+}
+
 // ---------------------------------------------------------------- prefix (same for every case)
 
-var prefixCache = map[bool][]*ledger.Block{}
+var prefixCache = map[int][]*ledger.Block{}
 
 func baseParams(testnet bool) ledger.Params {
 	return ledger.Params{PowLimitBits: 0x207fffff, GenesisTime: genesisTime, BIP34Height: 1, BIP65Height: 1, BIP66Height: 1,
@@ -91,14 +115,13 @@ func baseParams(testnet bool) ledger.Params {
 }
 
 // prefix builds the universal coinbase-only chain of prefixLen blocks.
-func prefix(testnet bool) []*ledger.Block {
-	if p, ok := prefixCache[testnet]; ok {
+func prefix(cfg *Cfg) []*ledger.Block {
+	net := cfg.net()
+	if p, ok := prefixCache[net]; ok {
 		return p
 	}
-	g := genesisHash
-	if testnet {
-		g = genesisHashTestnet
-	}
+	g := cfg.genesis()
+	testnet := cfg.Testnet
 	l := ledger.New(baseParams(testnet), g)
 	m := &ledger.Miner{L: l, W: ledger.NewWallet(walletSeed, walletKeys), R: hx.NewRng(0xC0FFEE)}
 	var res []*ledger.Block
@@ -112,7 +135,7 @@ func prefix(testnet bool) []*ledger.Block {
 		res = append(res, b)
 		cur = n
 	}
-	prefixCache[testnet] = res
+	prefixCache[net] = res
 	return res
 }
 
@@ -120,7 +143,7 @@ func prefix(testnet bool) []*ledger.Block {
 func newLedger(cfg *Cfg) (*ledger.Ledger, *ledger.Node) {
 	l := ledger.New(cfg.P, cfg.genesis())
 	cur := l.Genesis
-	for _, b := range prefix(cfg.Testnet) {
+	for _, b := range prefix(cfg) {
 		n := l.Add(b, 1<<40)
 		if n == nil || !n.Valid() {
 			panic("prefix invalid under case parameters: " + n.Clause)
@@ -138,7 +161,9 @@ func (H) Gen(prop string, seed uint64, tier string) *hx.Case {
 		SaveTargetMs: []int{0, 50, 5000}[r.Intn(3)], SkipSave: uint32(r.Intn(4)), ClientRecovery: r.Chance(0.5),
 		MaxConsec: []int{50, 500, 5000}[r.Intn(3)], SchedSeed: r.U64()}
 	cfg.P = baseParams(cfg.Testnet)
-	if r.Chance(0.5) {
+	if cfg.Testnet && r.Chance(0.6) {
+		cfg.Testnet4 = true // keeps every rule active from height 1
+	} else if r.Chance(0.5) {
 		// activation heights inside the explored window
 		h := func() uint32 { return uint32(prefixLen + 1 + r.Intn(12)) }
 		cfg.P.BIP34Height, cfg.P.BIP66Height, cfg.P.BIP65Height = h(), h(), h()
@@ -151,6 +176,13 @@ func (H) Gen(prop string, seed uint64, tier string) *hx.Case {
 	cfg.YieldP = []float64{0, 0.02, 0.1, 0.3}[r.Intn(4)]
 	if r.Chance(0.3) {
 		cfg.TimerP = 0.05
+	}
+	if prop == "C07" {
+		cfg.CrashPoints = 14
+		if tier == "thorough" {
+			cfg.CrashPoints = -1
+		}
+		cfg.SkipSave = uint32(r.Intn(2))
 	}
 	l, tip := newLedger(cfg)
 	cfg.Now0 = int64(tip.Time) + int64(r.Range(0, 3000))
@@ -342,7 +374,7 @@ func templateDir(cfg *Cfg) string {
 	if base == "" {
 		base = os.TempDir()
 	}
-	return fmt.Sprintf("%s/chain-template-t%v-c%v-b%v", base, cfg.Testnet, cfg.CompressUTXO, cfg.CompressBlocks)
+	return fmt.Sprintf("%s/chain-template-n%d-c%v-b%v", base, cfg.net(), cfg.CompressUTXO, cfg.CompressBlocks)
 }
 
 // ensureTemplate builds (once per child process and option set) a data directory holding the prefix.
@@ -358,8 +390,8 @@ func ensureTemplate(cfg *Cfg, out *hx.Outcome) string {
 	var fail string
 	res := simrt.Run(simrt.Config{Seed: 1, YieldP: 0, MaxConsec: 1 << 30}, func() {
 		simrt.Sleep(time.Unix(genesisTime+int64(prefixLen+1)*600, 0).Sub(time.Now()))
-		n := Boot(td, NodeOpts{P: baseParams(cfg.Testnet), Genesis: cfg.genesis(), CompressBlocks: cfg.CompressBlocks, CacheBlocks: 10})
-		for i, b := range prefix(cfg.Testnet) {
+		n := Boot(td, NodeOpts{P: baseParams(cfg.Testnet), Genesis: cfg.genesis(), CompressBlocks: cfg.CompressBlocks, CacheBlocks: 10, LibraryTail: cfg.Testnet4})
+		for i, b := range prefix(cfg) {
 			if err, st, _ := n.Deliver(b.Bytes()); err != nil {
 				fail = fmt.Sprintf("prefix block %d refused at %s: %v", i+1, st, err)
 				return
@@ -393,7 +425,12 @@ type run struct {
 	bad     bool
 	lastSaveHeight uint32
 	failedReorg bool
+	delivAt     map[[32]byte]int // effect-log length when the block was first handed to the node
+	delivOrder  []int
+	isPrefix    map[[32]byte]bool
 }
+
+func bidx(h [32]byte) [btc.Uint256IdxLen]byte { return btc.NewUint256(h[:]).BIdx() }
 
 func (r *run) viol(class, format string, a ...any) {
 	r.out.Violate(r.prop, class, format, a...)
@@ -418,7 +455,11 @@ func (r *run) compareState(when string) {
 		// a reorganisation has just failed on an invalid block: gocoin re-selects its tip with
 		// FindFarthestNode, whose tie-break among equal-work branches is child order (random after a restart)
 		if tn := r.l.Nodes[th]; tn != nil && tn.Valid() && r.status[th] == 1 && r.ancestryAccepted(tn) && tn.CumWork.Cmp(r.model.CumWork) == 0 {
-			r.out.Violate(r.prop, "tip.tie-after-failed-reorg", "%s: after a failed reorganisation the node's tip is %s although the equal-work branch ending in %s was seen first", when, hs(th), hs(r.model.Hash))
+			if r.prop == "C06" {
+				r.out.Violate(r.prop, "tip.tie-after-failed-reorg", "%s: after a failed reorganisation the node's tip is %s although the equal-work branch ending in %s was seen first", when, hs(th), hs(r.model.Hash))
+			} else {
+				r.out.Probe("tie_after_failed_reorg(see C06 finding)", 1)
+			}
 			r.model = tn
 		}
 	}
@@ -509,6 +550,12 @@ func (r *run) deliver(bi int, when string) {
 		dumpBefore = r.n.Dump()
 	}
 	tooNew := int64(blk.H.Time) > r.now+2*60*60
+	if r.delivAt != nil {
+		if _, seen := r.delivAt[hh]; !seen {
+			r.delivAt[hh] = simos.LogLen()
+			r.delivOrder = append(r.delivOrder, bi)
+		}
+	}
 	err, stage, maybeLater := r.n.Deliver(blk.Bytes())
 	defer r.syncPurged(when)
 	r.out.Probe("deliveries", 1)
@@ -690,8 +737,10 @@ func (H) Run(t *testing.T, c *hx.Case) *hx.Outcome {
 	var tip *ledger.Node
 	r.l, tip = newLedger(cfg)
 	r.model = tip
+	r.delivAt, r.isPrefix = map[[32]byte]int{}, map[[32]byte]bool{}
 	for p := tip; p != nil; p = p.Parent {
 		r.status[p.Hash] = 1 // the prefix is in the template directory
+		r.isPrefix[p.Hash] = true
 	}
 	for _, b := range cfg.Blocks {
 		r.nodes = append(r.nodes, r.l.Add(b, 1<<40))
@@ -718,6 +767,8 @@ func (H) Run(t *testing.T, c *hx.Case) *hx.Outcome {
 					r.lastSaveHeight = r.model.Height
 				}
 			case "save":
+				// the operator's "save UTXO now" command (client/usif/textui save_utxo): flush blocks, then snapshot
+				r.n.Ch.Blocks.Idle()
 				r.n.Ch.Unspent.HurryUp()
 				if r.n.Ch.Unspent.Save() {
 					r.out.Probe("explicit_save", 1)
@@ -749,6 +800,30 @@ func (H) Run(t *testing.T, c *hx.Case) *hx.Outcome {
 		return out
 	}
 	out.StateHash = fmt.Sprintf("%x/%d", r.model.Hash[:6], len(r.model.UTXO()))
+	if prop == "C07" {
+		// audit of the seam: replaying the whole effect log over the template reproduces the live directory
+		chk := filepath.Join(root, "chk")
+		live := simos.Snapshot()
+		if err := simos.Materialize(td, live, len(live), -1, chk); err != nil {
+			fmt.Fprintln(os.Stderr, "SEAM AUDIT FAILED: cannot materialise:", err)
+			os.Exit(2)
+		}
+		os.Remove(filepath.Join(chk, "ok"))
+		h1, _ := simos.TreeHash(dir)
+		h2, _ := simos.TreeHash(chk)
+		if h1 != h2 {
+			fmt.Fprintln(os.Stderr, "SEAM AUDIT FAILED: replaying the effect log does not reproduce the live directory")
+			os.Exit(2)
+		}
+		os.RemoveAll(chk)
+	}
+	if prop == "C07" && !r.bad && len(out.Violations) == 0 {
+		want := cfg.CrashPoints
+		if want == 0 {
+			want = 12
+		}
+		r.crashImages(root, td, simos.Snapshot(), c.Seed, want)
+	}
 	return out
 }
 
@@ -757,7 +832,7 @@ func (r *run) boot() {
 	utxo.UTXO_WRITING_TIME_TARGET = time.Duration(cfg.SaveTargetMs) * time.Millisecond
 	utxo.UTXO_SKIP_SAVE_BLOCKS = cfg.SkipSave
 	r.n = Boot(r.dir, NodeOpts{P: cfg.P, Genesis: cfg.genesis(), CompressBlocks: cfg.CompressBlocks, CacheBlocks: cfg.CacheBlocks,
-		MaxFileSize: uint64(cfg.MaxFileKB) << 10, ClientRecovery: cfg.ClientRecovery})
+		MaxFileSize: uint64(cfg.MaxFileKB) << 10, ClientRecovery: cfg.ClientRecovery, LibraryTail: cfg.Testnet4})
 }
 
 func (r *run) sample(ops []*Op) any {
